@@ -257,7 +257,7 @@ func (a *Range) M__eq__(other Object) (Object, error) {
 		return False, nil
 	}
 
-	if a.Step == 1 {
+	if a.Length == 1 {
 		return True, nil
 	}
 	if a.Step != b.Step {
@@ -284,7 +284,7 @@ func (a *Range) M__ne__(other Object) (Object, error) {
 		return True, nil
 	}
 
-	if a.Step == 1 {
+	if a.Length == 1 {
 		return False, nil
 	}
 	if a.Step != b.Step {
